@@ -894,12 +894,15 @@ def match_v1_tie(ctx, model_ok):
             pl = rng.choice([16384]) if big else rng.randrange(1, 5)
             k = rng.randrange(1, 5)
             if big:
-                sizes = [rng.choice([0, 100, pl, pl + 1, 2 * pl, pl - 1]) for _ in range(k)]
+                k = min(k, 3)
+                sizes = [rng.choice([0, 100, pl, pl + 1, pl - 1]) for _ in range(k)]
             else:
                 sizes = [rng.randrange(0, 7) for _ in range(k)]
-            names = [rng.choice(["a", "b", "c"]) for _ in range(k)]
+            combos = [(d, nm) for d in ("d0", "d1") for nm in ("a", "b", "c")]      # siblings in one directory, shared names
+            rng.shuffle(combos)
+            dirs, names = [c[0] for c in combos[:k]], [c[1] for c in combos[:k]]
             datas = [rng.randbytes(s) if big else bytes(rng.choice(b"xyz") for _ in range(s)) for s in sizes]
-            files = [((f"d{j}", names[j]), datas[j]) for j in range(k)]
+            files = [((dirs[j], names[j]), datas[j]) for j in range(k)]
             raw = oracle.ref_metafile("n", files, pl, 1)
             if rng.random() < 0.15:            # a damaged digest: the piece must fail, nothing may be copied for it
                 meta = oracle.bdecode_strict(raw)
@@ -961,7 +964,7 @@ def match_v1_tie(ctx, model_ok):
                            for nm, cs in fm.items()) or "-"
             lines.append((str(pl), ",".join(map(str, sizes)), hexlist(fulls), hexlist(fnames), m.pieces.hex(), fmf))
             impl.append(outcome + "|" + (",".join(hx(a) + ">" + hx(b) for a, b in calls) or "-"))
-            descs.append({"pl": pl, "sizes": sizes, "names": names, "candidates": sorted(kinds)})
+            descs.append({"pl": pl, "sizes": sizes, "files": [f"{d}/{nm}" for d, nm in zip(dirs, names)], "candidates": sorted(kinds)})
             cl = ["match_v1 tie"] + ["match_v1 tie: candidate " + x for x in sorted(kinds)]
             if "S" in outcome:
                 cl.append("match_v1 tie: piece skipped via `copied`")
@@ -969,7 +972,9 @@ def match_v1_tie(ctx, model_ok):
                 cl.append("match_v1 tie: piece fails")
             if len(set(names)) < len(names):
                 cl.append("two files of the torrent share a file name")
-            ctx.case(key=("match", ci, pl, tuple(sizes), tuple(names), outcome), classes=cl, nontrivial=sum(sizes) > 0,
+            if len(set(dirs)) < len(dirs):
+                cl.append("several files per directory")
+            ctx.case(key=("match", ci, pl, tuple(sizes), tuple(dirs), tuple(names), outcome), classes=cl, nontrivial=sum(sizes) > 0,
                      sample={"pl": pl, "sizes": sizes, "names": names, "outcome": outcome, "copypath_calls": calls[:6]}
                      if ci == 5 else None)
             shutil.rmtree(cdir, ignore_errors=True)
